@@ -829,6 +829,66 @@ def zero_row_cases(ctx):
                    s=f'obs_sim (Ok {_tframe(src)}) {obs}', tags={'op': 'delimited', 'delim': 'any'})
 
 
+def ragged_tree_cases(ctx):
+    """Index (and columns) of depth 3 built from_labels with ragged trees whose inner labels REPEAT under different outer
+    labels in consecutive rows -- ('a',0,'u'), ('a',1,'v'), ('b',1,'w'), ('b',2,'x') -- also with equal leaves: every row of
+    the file must carry its own outer labels."""
+    rng = ctx.rng
+    trees = [
+        [['a', 0, 'u'], ['a', 1, 'v'], ['b', 1, 'w'], ['b', 2, 'x']],
+        [['a', 0, 'u'], ['a', 1, 'v'], ['b', 1, 'v'], ['b', 2, 'x']],            # equal leaves across the boundary
+        [['a', 'p', 1], ['b', 'p', 2], ['c', 'p', 3]],                             # every row a new outer label, same middle label
+        [['a', 'p', 1], ['b', 'p', 1], ['c', 'q', 1]],
+        [[1, 'p', 'u'], [1, 'q', 'u'], [2, 'q', 'u'], [2, 'q', 'v'], [3, 'q', 'v']],
+    ]
+    fixed = [(t, d, on) for t in trees for d in (',', '\t', '|') for on in ('index', 'columns')]
+    for it in range(len(fixed) + ctx.n(40, 600)):
+        if it < len(fixed):
+            tree, d, on = fixed[it]
+        else:
+            d, on = rng.choice([',', '\t', '|', ';']), rng.choice(['index', 'index', 'columns', 'both'])
+            tree = _ragged_tree(rng)
+        other = _ragged_tree(rng) if on == 'both' else None
+        n = len(tree)
+        if on == 'index':
+            di, dc, index, columns = 3, rng.choice([1, 2]), tree, None
+        elif on == 'columns':
+            di, dc, index, columns = rng.choice([1, 2]), 3, None, tree
+        else:
+            di, dc, index, columns = 3, 3, tree, other
+        if index is None:
+            index = _rlabels(rng, rng.choice([1, 2, 3]), [rng.choice('si') for _ in range(di)], ['a', 'b', '1'])
+        if columns is None:
+            columns = _rlabels(rng, rng.choice([1, 2, 3]), [rng.choice('si') for _ in range(dc)], ['a', 'b', '1'])
+        cols = [_rcol(rng, len(index), ['a', 'b', '1', '-'], allow_empty=False) for _ in columns]
+        spec = {'index': index, 'columns': columns, 'cols': cols, 'di': di, 'dc': dc, 'cls': rng.choice(['Frame', 'Frame', 'FrameGO'])}
+        cfg = {'delim': d, 'inc_index': True, 'inc_columns': True, 'filter': True, 'di': di, 'dc': dc, 'apex': [f'__index{k}__' for k in range(di)]}
+        yield delimited_case(ctx, 'api:delimited-ragged-depth3', spec, cfg)
+
+
+def _ragged_tree(rng):
+    """3-6 labels of depth 3 in tree order; the middle (and often the leaf) label of the last row of a group is reused by the
+    first row of the next group."""
+    outer = rng.sample(['a', 'b', 'c', 'ab'], rng.choice([2, 3])) if rng.random() < 0.6 else rng.sample([1, 2, 3, -1], rng.choice([2, 3]))
+    mids = ['p', 'q', 'r'] if rng.random() < 0.5 else [0, 1, 2]
+    leaf_pool = ['u', 'v', 'w', 'x', 'y', 'z'] if rng.random() < 0.5 else [10, 11, 12, 13, 14, 15]
+    out, carry = [], None
+    for o in outer:
+        k = rng.choice([1, 1, 2])
+        ms = rng.sample(mids, k)
+        if carry is not None:
+            ms = [carry[0]] + [m for m in ms[1:] if m != carry[0]]
+        group = []
+        for j, m in enumerate(ms):
+            leaves = rng.sample(leaf_pool, rng.choice([1, 2]))
+            if j == 0 and carry is not None and rng.random() < 0.4:
+                leaves = [carry[1]] + [lf for lf in leaves[1:] if lf != carry[1]]            # equal leaf as well
+            group += [[o, m, lf] for lf in leaves]
+        out += group
+        carry = (group[-1][1], group[-1][2])
+    return out
+
+
 def witness_cases(ctx):
     """The minimal replay of every known finding (each listed finding must reproduce in every run)."""
     base = {'inc_index': True, 'inc_columns': True, 'filter': True, 'di': 1, 'dc': 1, 'apex': ['__index0__']}
@@ -1299,6 +1359,7 @@ def cases(ctx):
     yield from witness_cases(ctx)
     yield from fixed_frame_cases(ctx)
     yield from random_cases(ctx)
+    yield from ragged_tree_cases(ctx)
     yield from scientific_float_cases(ctx)
     yield from zero_row_cases(ctx)
     yield from structural_cases(ctx)
